@@ -71,18 +71,53 @@ def cases(draw, opts):
             else:
                 vals.append(E.enc(draw(H.hist_numbers)))
         c["calls"].append(vals)
+    # afterwards some definitions change (removed, replaced by a value or by another expression) - never the arguments
+    # themselves - and the function is generated again for the same name and arguments
+    redefine = []
+    if draw(st.integers(0, 2)) > 0:
+        for _ in range(draw(st.integers(1, 3))):
+            before = len(g.ops)
+            kind = draw(st.sampled_from(["unreg", "unreg", "setv-defined", "sete"]))
+            if kind == "unreg":
+                op = g.mk_unreg()
+            elif kind == "setv-defined":
+                cands = [k for k in sorted(m.defs, key=repr)]
+                op = {"op": "setv", "loc": W.json_loc(draw(st.sampled_from(cands))), "v": E.enc(draw(H.hist_numbers))} if cands else None
+            else:
+                op = g.mk_sete()
+            if op is None or W.tuple_loc(op["loc"]) in picked:
+                continue
+            if not g.push(op) or "expect_raise" in g.ops[-1]:
+                del g.ops[before:]
+                break
+            redefine.append(g.ops.pop())
+    c["ops"] = list(c["ops"])[:len(c["ops"])]
+    c["redefine"] = redefine
+    c["calls2"] = []
+    if redefine:
+        vals = []
+        for k in picked:
+            if k == W.IDX_LEAF:
+                vals.append(E.enc(draw(st.integers(0, 2))))
+            elif k == W.KEY_LEAF:
+                vals.append(E.enc(draw(st.sampled_from(["p", "q"]))))
+            else:
+                vals.append(E.enc(draw(H.hist_numbers)))
+        c["calls2"] = [vals]
     return c
 
 
 def exec_case(ctx, case):
     classes = {"genfun"}
-    rendered = {"history": W.render_case(case),
+    rendered = {"history": W.render_case(case), "then_redefined": W.render_case({"ops": case.get("redefine") or []}),
                 "arguments": [f"{nm} -> {E.loc_str(W.tuple_loc(l))}" for nm, l in case["args"]],
                 "calls": [[E.show(E.dec(v)) for v in vals] for vals in case["calls"]]}
     state = {"nt": False}
 
     def finish(f, nt=None):
-        ctx.stats.case(rendered, state["nt"] if nt is None else nt, sorted(classes))
+        if not state.get("finished"):
+            ctx.stats.case(rendered, state["nt"] if nt is None else nt, sorted(classes))
+        state["finished"] = True
         return f
     for why, n in case.get("excluded", {}).items():
         ctx.stats.excluded[why] += n
@@ -107,113 +142,138 @@ def exec_case(ctx, case):
     if any(nonfinite_literal(a) for a in model.defs.values()):
         ctx.stats.excluded[OUTSIDE] += 1
         return finish(None, False)
-    arg_keys = [W.tuple_loc(l) for _, l in case["args"]]
-    kwargs = {nm: A.ref(k) for (nm, _), k in zip(case["args"], arg_keys)}
-    where = {"history": rendered["history"], "arguments": rendered["arguments"]}
-    classes.add(f"args={len(arg_keys)}")
-    # ---- the source
-    try:
-        src = A.m.mk_fun("setter", **kwargs)
-        fun = A.m.gen_fun("setter", **kwargs)
-    except Exception as e:
-        return finish(Failure(f"C13:gen_fun-raises:{type(e).__name__}:{xdeps_frame(e)}", dict(where, raised=repr(e)[:300])), True)
-    where["source"] = src.split("\n")
-    lines = src.split("\n")
-    want_head = "def setter(" + ",".join(nm for nm, _ in case["args"]) + "):"
-    if lines[0] != want_head:
-        return finish(Failure("C13:source:header", dict(where, expected=want_head)), True)
-    body = lines[1:]
-    for (nm, _), k, ln in zip(case["args"], arg_keys, body):
-        if ln != f"  {A.ref(k)} = {nm}":
-            return finish(Failure("C13:source:argument-assignment", dict(where, line=ln)), True)
-    task_lines = body[len(arg_keys):]
-    by_text = {}
-    for t in model.defs:
-        by_text[f"  {A.ref(t)} = "] = t
-    listed = []
-    for ln in task_lines:
-        cands = [p for p in by_text if ln.startswith(p)]
-        if not cands:
-            return finish(Failure("C13:source:unknown-line", dict(where, line=ln)), True)
-        t = by_text[max(cands, key=len)]
-        want_line = f"  {A.ref(t)} = {A.m.tasks[A.ref(t)].expr}"
-        if ln != want_line:
-            return finish(Failure("C13:source:line-is-not-target=expr", dict(where, line=ln, expected=want_line)), True)
-        listed.append(("def", t))
-    Lset, Uset = set(), set()
-    tasks, true_g, doc_g = model.graphs()
-    for k in arg_keys:
-        L1, U1, _, _, _ = model.trigger_sets(k)
-        Lset |= L1
-        Uset |= U1
-    if len(set(listed)) != len(listed):
-        dup = sorted({E.loc_str(t[1]) for t in listed if listed.count(t) > 1})
-        return finish(Failure("C13:source:task-listed-twice", dict(where, tasks=dup)), True)
-    if not Lset <= set(listed):
-        miss = sorted(E.loc_str(t[1]) for t in Lset - set(listed))
-        return finish(Failure("C13:source:triggered-task-missing", dict(where, missing=miss)), True)
-    if not set(listed) <= Uset:
-        extra = sorted(E.loc_str(t[1]) for t in set(listed) - Uset)
-        return finish(Failure("C13:source:unrelated-task-listed", dict(where, extra=extra)), True)
-    pos = {t: i for i, t in enumerate(listed)}
-    for a in listed:
-        for b in true_g[a]:
-            if b in pos and pos[b] < pos[a]:
-                return finish(Failure("C13:source:order-violates-dependency",
-                                      dict(where, producer=E.loc_str(a[1]), consumer=E.loc_str(b[1]))), True)
-    if len(Lset) >= 2 and any(true_g[a] & Lset for a in Lset):
-        state["nt"] = True
-    if sum(1 for k in arg_keys if model.trigger_sets(k)[0]) >= 2:
-        state["nt"] = True
-    classes.add("triggered>=2" if len(Lset) >= 2 else f"triggered={len(Lset)}")
-    if Lset != Uset:
-        classes.add("sibling-trigger(L<U)")
-    # ---- the executions
-    for ci, vals in enumerate(case["calls"]):
-        values = [E.dec(v) for v in vals]
-        wh = dict(where, call=ci, values=[E.show(v) for v in values])
-        aexc = None
+    def phase(calls, tag):
+        """generate the function for the manager as it is now, check its source, run the calls; -> Failure | None | "stop" """
+        arg_keys = [W.tuple_loc(l) for _, l in case["args"]]
+        kwargs = {nm: A.ref(k) for (nm, _), k in zip(case["args"], arg_keys)}
+        where = {"history": rendered["history"], "arguments": rendered["arguments"]}
+        classes.add(f"args={len(arg_keys)}")
+        # ---- the source
         try:
-            fun(*values)
-        except ZeroDivisionError:
-            ctx.stats.excluded["generated function raises ZeroDivisionError (stated proviso)"] += 1
-            classes.add("zero-division-proviso")
-            return finish(None)
+            src = A.m.mk_fun("setter", **kwargs)
+            fun = A.m.gen_fun("setter", **kwargs)
         except Exception as e:
-            aexc = e
-        mexc = bexc = None
-        for k, v in zip(arg_keys, values):
-            op = {"op": "setv", "loc": W.json_loc(k), "v": E.enc(v)}
+            return finish(Failure(f"C13:gen_fun-raises:{type(e).__name__}:{xdeps_frame(e)}", dict(where, raised=repr(e)[:300])), True)
+        where["source"] = src.split("\n")
+        lines = src.split("\n")
+        want_head = "def setter(" + ",".join(nm for nm, _ in case["args"]) + "):"
+        if lines[0] != want_head:
+            return finish(Failure("C13:source:header", dict(where, expected=want_head)), True)
+        body = lines[1:]
+        for (nm, _), k, ln in zip(case["args"], arg_keys, body):
+            if ln != f"  {A.ref(k)} = {nm}":
+                return finish(Failure("C13:source:argument-assignment", dict(where, line=ln)), True)
+        task_lines = body[len(arg_keys):]
+        by_text = {}
+        for t in model.defs:
+            by_text[f"  {A.ref(t)} = "] = t
+        listed = []
+        for ln in task_lines:
+            cands = [p for p in by_text if ln.startswith(p)]
+            if not cands:
+                return finish(Failure("C13:source:unknown-line", dict(where, line=ln)), True)
+            t = by_text[max(cands, key=len)]
+            want_line = f"  {A.ref(t)} = {A.m.tasks[A.ref(t)].expr}"
+            if ln != want_line:
+                return finish(Failure("C13:source:line-is-not-target=expr", dict(where, line=ln, expected=want_line)), True)
+            listed.append(("def", t))
+        Lset, Uset = set(), set()
+        tasks, true_g, doc_g = model.graphs()
+        for k in arg_keys:
+            L1, U1, _, _, _ = model.trigger_sets(k)
+            Lset |= L1
+            Uset |= U1
+        if len(set(listed)) != len(listed):
+            dup = sorted({E.loc_str(t[1]) for t in listed if listed.count(t) > 1})
+            return finish(Failure("C13:source:task-listed-twice", dict(where, tasks=dup)), True)
+        if not Lset <= set(listed):
+            miss = sorted(E.loc_str(t[1]) for t in Lset - set(listed))
+            return finish(Failure("C13:source:triggered-task-missing", dict(where, missing=miss)), True)
+        if not set(listed) <= Uset:
+            extra = sorted(E.loc_str(t[1]) for t in set(listed) - Uset)
+            return finish(Failure("C13:source:unrelated-task-listed", dict(where, extra=extra)), True)
+        pos = {t: i for i, t in enumerate(listed)}
+        for a in listed:
+            for b in true_g[a]:
+                if b in pos and pos[b] < pos[a]:
+                    return finish(Failure("C13:source:order-violates-dependency",
+                                          dict(where, producer=E.loc_str(a[1]), consumer=E.loc_str(b[1]))), True)
+        if len(Lset) >= 2 and any(true_g[a] & Lset for a in Lset):
+            state["nt"] = True
+        if sum(1 for k in arg_keys if model.trigger_sets(k)[0]) >= 2:
+            state["nt"] = True
+        classes.add("triggered>=2" if len(Lset) >= 2 else f"triggered={len(Lset)}")
+        if Lset != Uset:
+            classes.add("sibling-trigger(L<U)")
+        # ---- the executions
+        for ci, vals in enumerate(calls):
+            values = [E.dec(v) for v in vals]
+            wh = dict(where, call=ci, phase=tag, values=[E.show(v) for v in values])
+            aexc = None
+            try:
+                fun(*values)
+            except ZeroDivisionError:
+                ctx.stats.excluded["generated function raises ZeroDivisionError (stated proviso)"] += 1
+                classes.add("zero-division-proviso")
+                return finish(None)
+            except Exception as e:
+                aexc = e
+            mexc = bexc = None
+            for k, v in zip(arg_keys, values):
+                op = {"op": "setv", "loc": W.json_loc(k), "v": E.enc(v)}
+                try:
+                    model.apply(op)
+                except Exception as e:
+                    mexc = e
+                try:
+                    B.apply(op)
+                except Exception as e:
+                    bexc = e
+                if mexc or bexc:
+                    break
+            if mexc is not None or bexc is not None:
+                # The manager path assigns the arguments one at a time and recomputes after each: Python may raise on an
+                # INTERMEDIATE valuation the generated function never visits (it assigns all arguments first), e.g.
+                # round(nan) after a deferred division by zero.  Not an equivalence claim of the property: counted.
+                classes.add("manager-path-raises-on-intermediate-valuation")
+                ctx.stats.excluded["sequential assignment raises on an intermediate valuation"] += 1
+                return finish(None)
+            if aexc is not None:
+                return finish(Failure(f"C13:function-raises:{type(aexc).__name__}", dict(wh, raised=repr(aexc)[:300])), True)
+            d = W.diff_roots(A.roots, B.roots)
+            if d is not None:
+                return finish(Failure("C13:function-and-manager-disagree",
+                                      dict(wh, location=d[0], after_function=d[1], after_assignment=d[2])), True)
+            d = W.diff_roots(A.roots, model.roots)
+            if d is not None:
+                return finish(Failure("C13:function-disagrees-with-model",
+                                      dict(wh, location=d[0], after_function=d[1], expected=d[2])), True)
+            # the manager of world A must be untouched by running the function
+            if sorted(map(tuple, A.m.dump())) != sorted(map(tuple, B.m.dump())):
+                return finish(Failure("C13:definitions-changed-by-function", wh), True)
+        return None
+
+    state["stop"] = False
+    f = phase(case["calls"], "initial")
+    if f is not None or state.get("finished"):
+        return f
+    # ---- the definitions change, the function is generated AGAIN for the same name and arguments
+    redefine = case.get("redefine") or []
+    if redefine:
+        classes.add("regenerated-after-definition-change")
+        for op in redefine:
             try:
                 model.apply(op)
-            except Exception as e:
-                mexc = e
-            try:
+                A.apply(op)
                 B.apply(op)
-            except Exception as e:
-                bexc = e
-            if mexc or bexc:
-                break
-        if mexc is not None or bexc is not None:
-            # The manager path assigns the arguments one at a time and recomputes after each: Python may raise on an
-            # INTERMEDIATE valuation the generated function never visits (it assigns all arguments first), e.g.
-            # round(nan) after a deferred division by zero.  Not an equivalence claim of the property: counted.
-            classes.add("manager-path-raises-on-intermediate-valuation")
-            ctx.stats.excluded["sequential assignment raises on an intermediate valuation"] += 1
+            except Exception:
+                classes.add("redefinition-raises")
+                return finish(None)
+        if model.k1 or model.k1_now() is not None or any(nonfinite_literal(a) for a in model.defs.values()):
             return finish(None)
-        if aexc is not None:
-            return finish(Failure(f"C13:function-raises:{type(aexc).__name__}", dict(wh, raised=repr(aexc)[:300])), True)
-        d = W.diff_roots(A.roots, B.roots)
-        if d is not None:
-            return finish(Failure("C13:function-and-manager-disagree",
-                                  dict(wh, location=d[0], after_function=d[1], after_assignment=d[2])), True)
-        d = W.diff_roots(A.roots, model.roots)
-        if d is not None:
-            return finish(Failure("C13:function-disagrees-with-model",
-                                  dict(wh, location=d[0], after_function=d[1], expected=d[2])), True)
-        # the manager of world A must be untouched by running the function
-        if sorted(map(tuple, A.m.dump())) != sorted(map(tuple, B.m.dump())):
-            return finish(Failure("C13:definitions-changed-by-function", wh), True)
+        f = phase(case.get("calls2") or case["calls"][:1], "after-redefinition")
+        if f is not None or state.get("finished"):
+            return f
     return finish(None)
 
 
